@@ -1,4 +1,4 @@
-\* random deep plans (-simulate) with up to two create requests in flight: all shapes, mappings, user-role flag, a fault at a
+\* random deep plans (-simulate) with up to two create requests in flight: all shapes, own-name mappings, user-role flag, a fault at a
 \* store call of either section of a create (begin / step) or of an atomic create / delete, task limit 3, restart at quiescent points
 SPECIFICATION Spec
 CHECK_DEADLOCK FALSE
@@ -8,18 +8,18 @@ CONSTANTS
   UDBs = {"default", "d1", "d2"}
   UColls = {"c1", "c2", "c3"}
   Targets = {"A"}
-  Vias = {"ci", "dbc"}
-  MapKinds = {"none", "own", "foreign"}
+  Vias = {"ci"}
+  MapKinds = {"none", "own"}
   URs = {FALSE, TRUE}
-  NoAutos = {FALSE, TRUE}
+  NoAutos = {FALSE}
   Faults = {0, 1, 3, 4, 6}
   DelFaults = {0, 1, 2, 3, 4}
   MaxOps = 7
   MaxLive = 3
   WithRestart = TRUE
   SimPrint = TRUE
-  DelW = 12
-  RestartW = 60
+  DelW = 6
+  RestartW = 20
   PartialOverlapChecked = TRUE
   ExcludeKept = TRUE
   UserRoleReverted = TRUE
